@@ -61,6 +61,7 @@ def gen(seed, run, tier='quick'):
         'conv_new': rng.choice([0, 1, 2]),
         'conv_update': rng.choice([0, 2, 4]),
         'conv_update_bad': rng.choice([0, 2, 4]),
+        'set_rounding': rng.choice([0, 0, 1]),
         'evict': rng.choice([0, 1]),
     }
     kinds = list(w)
@@ -95,6 +96,12 @@ def gen(seed, run, tier='quick'):
         seq.append(['conv_update'] + e)
         b = rr(); b[0] = 65535; b[7] = rng.choice([2, 3])
         seq.append(['conv_update_bad'] + b)
+        if rng.random() < 0.5:
+            # the user switches the rounding mode and feeds the good part
+            # of the rejected feed again
+            seq.append(['set_rounding'] + rr())
+            f = rr(); f[0] = 65535; f[10] = 2
+            seq.append(['conv_update'] + f)
         m = rr(); m[0] = 65535; m[7] = 1
         seq.append(['conv_update_bad'] + m)
         v = rr(); v[0] = 65535; v[11] = 1
@@ -187,6 +194,7 @@ class State:
         self.scn = None         # running operation-cache scenario
         self.last_rejected_type = None
         self.last_iter = None   # (converter, iterator name, specs)
+        self.last_rejected_specs = None     # (converter, validity, specs)
         self.n_amount = 0
         self.model_gaps = 0     # accepted steps the model could not follow
 
@@ -195,7 +203,10 @@ class State:
         self.n_amount += 1
         return {'t': ['dec', 'frac', 'str', 'int'][self.n_amount % 4]
                 if self.n_amount % 4 != 3 else 'dec',
-                'v': f"{p // 1000}.{p % 1000:03d}"}
+                # every third one with eight decimals: its rate is rounded
+                'v': f"{p // 1000}.{p % 1000:03d}" + (
+                    f"{p * 7919 % 100000:05d}" if self.n_amount % 3 == 0
+                    else '')}
 
 
 def resolve(st: State, op):
@@ -243,6 +254,9 @@ def resolve(st: State, op):
         return {'a': 'derived_type', 'name': f'D{n}', 'items': [],
                 'style': 3, 'ref_sym': f'r{n}', 'auto_ref': False,
                 'quantum': None, 'expect': 'reject', 'bad': 'not_a_term'}
+    if kind == 'set_rounding':
+        return {'a': 'set_rounding', 'mode': ROUNDINGS[r[0] % len(ROUNDINGS)],
+                'expect': 'accept'}
     if kind == 'scn':
         return _scenario_step(st, n, r)
     if kind == 'permuted':
@@ -417,6 +431,16 @@ def resolve(st: State, op):
                 lambda x: dict(x) if isinstance(x, dict) else x, sp))
                 for sp in st.last_iter[2]]
             nspec = len(specs)
+        if kind == 'conv_update' and r[10] % 4 == 2 and \
+                st.last_rejected_specs and \
+                st.last_rejected_specs[0] == cn:
+            # the quotations of the last rejected feed, fed again - now
+            # without the faulty entry
+            act['validity'] = st.last_rejected_specs[1]
+            act['specs'] = [[dict(sp[0]), dict(sp[1]), dict(sp[2])]
+                            for sp in st.last_rejected_specs[2]]
+            act.pop('iter', None)
+            act['refeed'] = True
         if kind == 'conv_update':
             return act
         mode = r[7] % 4
@@ -467,6 +491,11 @@ def resolve(st: State, op):
             act['bad'] = f'invalid_rate_spec_at_{pos + 1}_of_{nspec}'
             if pos > 0:
                 act['bad_after_valid'] = True
+                if what != 'feed' and (c['kind'] is None or
+                                       c['kind'] == pref):
+                    act['valid_prefix'] = [
+                        [dict(sp[0]), dict(sp[1]), dict(sp[2])]
+                        for sp in specs[:pos]]
         act['expect'] = 'reject'
         return act
     raise ValueError(f"unknown intent {op}")
@@ -590,6 +619,9 @@ def note_outcome(st: State, act, accepted, info):
     for p in _pairs_of(act):
         if p not in st.term_pairs:
             st.term_pairs.append(p)
+    if a == 'conv_update' and not accepted and act.get('valid_prefix'):
+        st.last_rejected_specs = (act['conv'], act['validity'],
+                                  act['valid_prefix'])
     if a == 'conv_update':
         # an iterator whose update was rejected before it was (supposed to
         # be) read may serve the caller's next update
@@ -672,6 +704,7 @@ class Env16(decl.Env):
         super().__init__()
         self.convs = {}
         self.iters = {}
+        self.clocks = {}
 
 
 def type_key(env, cls):
@@ -698,6 +731,9 @@ def perform(env: Env16, act):
                 None if unit is None else type_key(env, unit.qty_cls)]}
         except Exception as e:      # noqa
             return 'exc', type(e).__name__
+    if a == 'set_rounding':
+        set_rounding(act['mode'])
+        return 'ok', {}
     if a == 'burst':
         us = list(env.units.values())
         done = 0
@@ -732,7 +768,20 @@ def perform(env: Env16, act):
             return 'exc', type(e).__name__
         return 'ok', {}
     if a == 'conv_new':
-        env.convs[act['name']] = MoneyConverter(env.units[act['base']])
+        if len(act['name']) % 2:
+            # with a callable of the caller's: a business calendar that
+            # counts how often it is asked
+            class Calendar:
+                calls = 0
+
+                def __call__(self):
+                    self.calls += 1
+                    return dt.date(2024, 2, 29)
+            clk = env.clocks[act['name']] = Calendar()
+            env.convs[act['name']] = MoneyConverter(
+                env.units[act['base']], get_dflt_effective_date=clk)
+        else:
+            env.convs[act['name']] = MoneyConverter(env.units[act['base']])
         return 'ok', {}
     if a == 'conv_update':
         conv = env.convs[act['conv']]
@@ -922,6 +971,10 @@ def _observe(env: Env16, symbols, typenames, pairs=(), final=True):
                     except Exception as e:      # noqa
                         vec.append('exc:' + type(e).__name__)
         obs['conv:' + cn] = vec
+        if cn in env.clocks:
+            # nobody asked for a default date: the caller's calendar was
+            # not consulted
+            obs['clock:' + cn] = env.clocks[cn].calls
     return obs
 
 
